@@ -53,6 +53,11 @@ def run(ctx) -> None:
     from . import c04, c08
 
     ctx.reuse("C01.pair-AD", c04.pairing_family)
+    # a record is appended only after the labware accepted the booking: a refused aspirate / dispense that has already
+    # written its records leaves a worklist that moves liquid the tracked state never saw
+    from . import c03 as _c03x
+
+    ctx.reuse("C01.pair-AD", _c03x.check_before_emit)
     ctx.reuse("C01.numbering", c08.trough_predicate)
     ctx.reuse("C01.composition", c05.mix_args)
     ctx.reuse("C01.composition", c05.mix_formula)
